@@ -24,6 +24,7 @@ Op lines (decimal integers; names / file names / md5 are integers, the adapter m
   noout <list>                    SaveSignaturesToLocation(None): counts, writes nothing
   stdio <list>                    saved to `-` (stdout), read back from the JSON text and through the stdin loader
   sbtjson <list>                  an SBT saved as .sbt.json + .sbt.<name>/ (FSStorage)
+  sbtresave <json|zip> <samename|othername|otherdir|zip> <list> <extra>   SBT saved, loaded, extended, saved elsewhere; source deleted
   lcasql <ksize> <mol> <scaled> <maxhash> <list>      an LCA database saved in SQLite format
   load nomanifest                 (zip) ZipFileLinearIndex.load(use_manifest=False)
   nested <l1> <l2> <l3> <junk> <force>   a directory tree a.sig / sub/b.sig.gz / sub/deep/c.zip / sub/readme.txt [/ junk.sig]
@@ -289,7 +290,14 @@ def gen_periph_case(rng):
             if keyof(sigs[i]) not in seen:        # the file-system storage treats repeated leaves order-dependently
                 seen.add(keyof(sigs[i]))
                 distinct.append(i)
-        lines.append("sbtjson " + ",".join(str(x) for x in distinct[:rng.randint(1, 5)]))
+        if rng.random() < 0.6:
+            cut = rng.randint(1, len(distinct))
+            first, more = distinct[:cut], distinct[cut:][:rng.randint(0, 2)]
+            lines.append(f"sbtresave {rng.choice(['json', 'json', 'zip'])} "
+                         f"{rng.choice(['samename', 'samename', 'othername', 'otherdir', 'zip'])} "
+                         + ",".join(str(x) for x in first) + " " + (",".join(str(x) for x in more) if more else "-"))
+        else:
+            lines.append("sbtjson " + ",".join(str(x) for x in distinct[:rng.randint(1, 5)]))
         lines += ["members", "manifest", "locs", "len", "load generic"]
     elif r < 0.75:
         named = [i for i in range(n) if sigs[i]["name"] != 0] or [0]
@@ -763,6 +771,8 @@ def oracle(case, impl):
             continue
         if w[0] == "sqlapi":
             w = ["sqldb", w[1] + "|" + w[2]]
+        if w[0] == "sbtresave":
+            w = ["sbtjson", ",".join(x for x in (w[3], w[4]) if x != "-")]
         if w[0] in ("zip", "dir", "sqldb", "sigfile", "sbt", "lca", "sbtjson", "lcasql"):
             coll = Coll({"sbtjson": "sbt", "lcasql": "lca"}.get(w[0], w[0]))
             coll.sql = w[0] == "lcasql"
@@ -1002,7 +1012,7 @@ def oracle(case, impl):
                                                  f"len() = {lo[3:]} but {len(loaded)} signatures are returned"))
                     break
                 if case[kk].split()[0] in ("zip", "dir", "sqldb", "sigfile", "sbt", "lca", "cat", "split", "collect", "mk",
-                                           "sbtjson", "lcasql", "sqlapi", "lateadd"):
+                                           "sbtjson", "lcasql", "sqlapi", "lateadd", "sbtresave"):
                     break
             # manifest rows <-> returned signatures
             if coll.rows is not None and w[1] == "generic":
@@ -1121,7 +1131,7 @@ def classify(case, impl, model, k):
     fmt = "?"
     for l in case[:k + 1]:
         w = l.split()
-        if w and w[0] in ("zip", "dir", "sqldb", "sigfile", "sbt", "lca", "cat", "split", "collect", "sbtjson", "lcasql"):
+        if w and w[0] in ("zip", "dir", "sqldb", "sigfile", "sbt", "lca", "cat", "split", "collect", "sbtjson", "lcasql", "sbtresave"):
             fmt = w[0]
     op = case[k].split()[0] if k < len(case) and case[k].split() else "?"
     if op in ("kind", "conv", "sig"):
